@@ -340,6 +340,11 @@ func (q *weightedFairQueueingPendingQueuePolicy) Peek() StreamSchedulerChunk {
 
 	q.streamSelected = true
 	q.selectedStream = selectedStream
+	// The selected chunk is in service from now on: the virtual time is its
+	// finish tag (self-clocked fair queueing). Advancing it only in Pop lets
+	// chunks pushed while a selection is held (the sender stopped on cwnd/rwnd
+	// after peeking) start from a stale virtual time, which breaks fairness.
+	q.virtualTime = math.Max(q.virtualTime, selectedFinish)
 
 	return selectedChunk
 }
